@@ -35,7 +35,7 @@ type c04WaitingPod struct {
 	rejected bool
 }
 
-func (w *c04WaitingPod) GetPod() *corev1.Pod        { return w.pod }
+func (w *c04WaitingPod) GetPod() *corev1.Pod         { return w.pod }
 func (w *c04WaitingPod) GetPendingPlugins() []string { return []string{Name} }
 func (w *c04WaitingPod) Allow(pluginName string) {
 	w.allowed = true
@@ -100,14 +100,14 @@ type c04Cfg struct {
 type c04PodState int
 
 const (
-	c04Absent    c04PodState = iota
-	c04Pending               // known to the cache, holds nothing
-	c04Waiting               // Permit returned Wait: in the framework's waiting map, holds its reservation
-	c04Binding               // released (Permit success or Allow): in the binding cycle, holds its reservation
-	c04Rejected              // Reject delivered: the framework will call Unreserve, still holds until then
-	c04PostBound             // PostBind done, informer has not confirmed yet
-	c04Bound                 // informer delivered the bound pod
-	c04DeletedHolding        // deleted while waiting/binding: the framework will still call Unreserve
+	c04Absent         c04PodState = iota
+	c04Pending                    // known to the cache, holds nothing
+	c04Waiting                    // Permit returned Wait: in the framework's waiting map, holds its reservation
+	c04Binding                    // released (Permit success or Allow): in the binding cycle, holds its reservation
+	c04Rejected                   // Reject delivered: the framework will call Unreserve, still holds until then
+	c04PostBound                  // PostBind done, informer has not confirmed yet
+	c04Bound                      // informer delivered the bound pod
+	c04DeletedHolding             // deleted while waiting/binding: the framework will still call Unreserve
 )
 
 var c04StateNames = []string{"absent", "pending", "waiting", "binding", "rejected", "postbound", "bound", "deleted-holding"}
